@@ -158,6 +158,10 @@ def Ev.isDelete : Ev → Bool
   | .delete => true
   | _ => false
 
+def Ev.isPanic : Ev → Bool
+  | .panic _ => true
+  | _ => false
+
 /-- the schedule contains no `delete_db_key` -/
 def noDelete (sched : List Ev) : Bool := sched.all (fun e => !e.isDelete)
 
@@ -271,10 +275,6 @@ def nrun (fc : Bool) (s : NSt) : List NEv → NSt
 def nsteps (l : List (Nat × Nat)) : List NEv := l.map (fun p => .step p.1 p.2)
 
 def NEv.isPanic : NEv → Bool
-  | .panic _ => true
-  | _ => false
-
-def Ev.isPanic : Ev → Bool
   | .panic _ => true
   | _ => false
 
